@@ -247,3 +247,18 @@ def patch(module, **names):
 
 def applied():
     return sorted(set("%s.%s" % a for a in _applied))
+
+
+class NpShimObjArrays(NpShim):
+    """Variant for modules that later add proxies INTO arrays built from plain numbers (in-place `+=`): every numeric
+    array built while a symbolic run is active is an object array."""
+
+    @staticmethod
+    def array(obj, dtype=None, **kw):
+        a = NpShim.array(obj, dtype=dtype, **kw)
+        if symbolic_active() and a.dtype != object and a.dtype.kind in "iuf":
+            a = a.astype(object)
+        return a
+
+
+np_shim_obj = NpShimObjArrays()
